@@ -78,9 +78,11 @@ Lemma scan_all_tpl_xgo cm fuel st acc :
 Proof.
   revert st acc; induction fuel as [|f IH]; intros st acc; [reflexivity|]. cbn [all_steps scan_all].
   intros H. apply andb_prop in H as [P H]. rewrite (step_tpl_xgo cm st P).
-  destruct (step ul ud XGo cm st) as [[t st'|st']| |]; try reflexivity.
-  - destruct (ttok t); try reflexivity; apply IH, H.
+  destruct (step ul ud XGo cm st) as [[t st'|st']| |].
+  - destruct (ttok t) eqn:T; try (apply IH, H). reflexivity.
   - apply IH, H.
+  - reflexivity.
+  - reflexivity.
 Qed.
 
 Theorem run_tpl_xgo cm src : shared ul ud cm src = true -> run ul ud Tpl cm src = run ul ud XGo cm src.
